@@ -21,6 +21,8 @@ DEREF_LIKE = re.compile(
     r"(core::str::<impl str>::as_bytes$)|(core::convert::Into<.*>>::into$)|(core::convert::From<.*>>::from$)|"
     r"(core::iter::traits::collect::IntoIterator>::into_iter$)"
 )
+FACTS = None   # set by the check entry point: lets constants that refer to promoted bodies be expanded
+
 COMMUTATIVE = {"Add", "Mul", "BitAnd", "BitOr", "BitXor", "Eq", "Ne"}
 INT_TY = re.compile(r"^(u|i)(8|16|32|64|128|size)$")
 
@@ -136,6 +138,10 @@ class Exprs:
         if k == "const":
             if "fn" in o:
                 return ("fn", o["fn"])
+            if "promoted" in o and "item" in o and FACTS is not None and depth < 30:
+                pf = FACTS.funcs.get("%s::{promoted#%d}" % (o["item"], o["promoted"]))
+                if pf is not None:
+                    return Exprs(pf, keep_casts=self.keep_casts).local(0, depth + 1)
             if "int" in o:
                 return ("const", o["int"])
             if "str" in o:
